@@ -1,9 +1,9 @@
 """C13 - assembly output is a pure function of its inputs.
 
 Explicit-state search over assemble-call histories in ONE process (K2): every history of depth <= 2
-(thorough 3) over 16 actions (stl programs at w=64/32, a no-stl program at w=16, werror on, a parse
+(thorough 3) over 17 actions (stl programs at w=64/32, a no-stl program at w=16, werror on, a parse
 failure inside nested namespaces, a lexing error, an unknown macro after the stl cache was filled, a
-macro-recursion overflow with max_recursion_depth=5, a run with max_recursion_depth=2000, a
+macro-recursion overflow with max_recursion_depth=5, runs with max_recursion_depth=2000 and 4000, a
 rep-heavy program, the stl under other short names, other user short names, another directory) is run
 in a forked child of a parent that has imported flipjump but never assembled; then every probe is
 assembled and its .fjm and .fjd bytes are compared with the bytes produced by a FRESH interpreter
@@ -30,6 +30,8 @@ UNKNOWN = 'stl.startup\nno_such_macro 1\nstl.loop\n'
 RECURSE = 'def r {\n r\n}\nstl.startup\nr\nstl.loop\n'
 CONSTS = 'LEN = 5\nVAL = LEN * 3\nstl.startup\nstl.output_char \'a\' + LEN\nstl.loop\n'
 CONSTS_FAIL = 'LEN = 7\nstl.startup\nno_such_macro LEN\nstl.loop\n'
+DEEP_OK = 'stl.startup\n;x' + '+1' * 400 + '\nx:\nstl.loop\n'      # well inside the default python recursion budget of an assemble
+DEEP_FAIL = 'stl.startup\n;x' + '+1' * 700 + '\nx:\nstl.loop\n'    # well outside it: fails in a fresh process, must fail the same way after any history
 USES_NAMES = 'stl.startup\n;LEN\nLEN:\n;VAL\nVAL:\nstl.loop\n'
 
 # action: (name, text, kwargs)
@@ -50,6 +52,7 @@ ACTIONS = [
     ('other-directory', HELLO, dict(w=64, use_stl=True, subdir='elsewhere')),
     ('defines-constants32', CONSTS, dict(w=32, use_stl=True)),
     ('defines-constants-then-fails', CONSTS_FAIL, dict(w=64, use_stl=True)),
+    ('depth-4000', NOSTL, dict(w=16, use_stl=False, max_recursion_depth=4000)),
 ]
 PROBES = [
     ('p-hello64-v3', HELLO, dict(w=64, use_stl=True, version=3)),
@@ -58,6 +61,8 @@ PROBES = [
     ('p-rep64-werror-v1', REPHEAVY, dict(w=64, use_stl=True, version=1, werror=True)),
     ('p-names64-v1', USES_NAMES, dict(w=64, use_stl=True, version=1)),
     ('p-names32-v3', USES_NAMES, dict(w=32, use_stl=True, version=3)),
+    ('p-deep-expr-400', DEEP_OK, dict(w=64, use_stl=True, version=1)),
+    ('p-deep-expr-700', DEEP_FAIL, dict(w=64, use_stl=True, version=1)),
 ]
 
 
